@@ -99,11 +99,21 @@ def load_many(lit: LineIterator) -> Iterator[dict]:
     """Do not edit this docstring. It will be overwritten."""
     # SDF files with more molecules are a simple concatenation of individual SDF files,'
     # making it travial to load many frames.
-    try:
-        while True:
-            yield load_one(lit)
-    except StopIteration:
-        return
+    while True:
+        # Only the end of the file, possibly after trailing blank lines, ends the sequence.
+        # Blank lines are put back because the title line of a frame may be empty.
+        skipped = []
+        try:
+            line = next(lit)
+            while line.strip() == "":
+                skipped.append(line)
+                line = next(lit)
+        except StopIteration:
+            return
+        lit.back(line)
+        for skipped_line in reversed(skipped):
+            lit.back(skipped_line)
+        yield load_one(lit)
 
 
 @document_dump_one("SDF", ["atcoords", "atnums"], ["title", "bonds"])
